@@ -324,6 +324,12 @@ class FilterMatcher(WrappingMatcher):
         self.child.skip_to(id)
         self._find_next()
 
+    def skip_to_quality(self, minquality):
+        skipped = WrappingMatcher.skip_to_quality(self, minquality)
+        # The child may have landed on a filtered-out posting
+        self._find_next()
+        return skipped
+
     def all_ids(self):
         ids = self._ids
         if self._exclude:
